@@ -49,6 +49,23 @@ def variants(files):
     return out
 
 
+def _added(text):
+    return [l[1:] for l in text.splitlines() if l.startswith("+") and not l.startswith("+++")]
+
+
+def dependent(part_text: str, full_text: str) -> list:
+    """names the FULL patch introduces (new functions / methods / parameters / assigned names) that this part uses but does not introduce itself: such a part is
+    not a change anyone could make on its own (it calls a helper that does not exist), so it is not a twin"""
+    intro = lambda lines: set(re.findall(r"^\s*def\s+(\w+)", "\n".join(lines), re.M)) | set(re.findall(r"^\s*(\w+)\s*(?::[^=\n]+)?=(?!=)", "\n".join(lines), re.M))
+    full_new = intro(_added(full_text))
+    # only names that do not occur anywhere in the removed/context lines of the full patch (i.e. genuinely new)
+    old_lines = "\n".join(l[1:] for l in full_text.splitlines() if l.startswith((" ", "-")) and not l.startswith("---"))
+    full_new = {n for n in full_new if not re.search(r"\b%s\b" % re.escape(n), old_lines)}
+    mine = intro(_added(part_text))
+    used = set(re.findall(r"\b\w+\b", "\n".join(_added(part_text))))
+    return sorted((full_new - mine) & used)
+
+
 def run_variant(name, label, text, pid):
     base = "/dev/shm" if os.path.isdir("/dev/shm") else tempfile.gettempdir()
     wt = tempfile.mkdtemp(prefix=f"qvsub-{name}-{label}-", dir=base)
@@ -90,7 +107,12 @@ def main():
     for n in names:
         meta = json.load(open(os.path.join(SEEDED, n, "meta.json")))
         pid = meta.get("property") or n.split("-")[0]
-        for label, text in variants(split(open(os.path.join(SEEDED, n, "patch.diff")).read())):
+        full = open(os.path.join(SEEDED, n, "patch.diff")).read()
+        for label, text in variants(split(full)):
+            dep = dependent(text, full)
+            if dep:
+                print(f"{n:14s} {label:8s} dependent hunk (uses {dep[:3]} introduced elsewhere in the patch) — not a stand-alone change")
+                continue
             work.append((n, label, text, pid))
     with ThreadPoolExecutor(jobs) as ex:
         results = list(ex.map(lambda w: run_variant(*w), work))
